@@ -448,9 +448,99 @@ fn nontrivial(beh: &Value) -> bool {
     }
 }
 
+
+// ------------------------------------------------------------------------------------------------
+// recorder: random operations on 6 bare terminals with arbitrary values, logged for spec/DevicesTrace.tla
+// ------------------------------------------------------------------------------------------------
+fn record(path: &str, seed: u64, runs: usize) {
+    use std::io::Write;
+    let mut rng = Rng::new(seed);
+    let mut f = std::io::BufWriter::new(std::fs::File::create(path).expect("create trace"));
+    const NT: usize = 6;
+    for _ in 0..runs {
+        writeln!(f, "{}", json!({"k": "reset"})).unwrap();
+        // a random strictly monotone map rank -> i64 (extremes included now and then)
+        let nranks = 400usize;
+        let mut ts: Vec<i64> = (0..nranks).map(|_| rng.next() as i64).collect();
+        if rng.below(3) == 0 {
+            ts.push(i64::MIN);
+            ts.push(i64::MAX);
+        }
+        ts.sort();
+        ts.dedup();
+        let terms: Vec<Term> = (0..NT).map(|_| &*leak(Terminal::<E>::new())).collect();
+        let rank_of = |t: Time| -> i64 { ts.binary_search(&t.0).map(|p| p as i64 + 1).unwrap_or(-1) };
+        let mut used_cmd_ranks = std::collections::HashSet::new();
+        for _ in 0..(50 + rng.below(150)) {
+            let i = rng.below(NT as u64) as usize;
+            let mut j = rng.below(NT as u64) as usize;
+            if j == i {
+                j = (i + 1) % NT;
+            }
+            let roll = rng.below(10);
+            let mut ev = json!({"k": "op", "i": i + 1, "j": j + 1, "t": 0, "keys": [0, 0, 0], "kind": 0, "key": 0});
+            let res: Result<(), String> = if roll < 3 {
+                ev["op"] = json!("connect");
+                catch(|| connect(terms[i], terms[j]))
+            } else if roll < 4 {
+                ev["op"] = json!("disconnect");
+                catch(|| terms[i].borrow_mut().disconnect())
+            } else if roll < 7 {
+                let r = rng.below(ts.len() as u64) as usize;
+                let st = State::new_raw(rng.float(-20, 20), rng.float(-20, 20), rng.float(-20, 20));
+                ev["op"] = json!("setstate");
+                ev["t"] = json!(r as i64 + 1);
+                ev["keys"] = json!([f32_key(st.position), f32_key(st.velocity), f32_key(st.acceleration)]);
+                catch(|| {
+                    let _ = set_state(terms[i], Datum::new(Time(ts[r]), st));
+                })
+            } else {
+                // distinct timestamps for commands (with equal timestamps neither command is newer)
+                let mut r = rng.below(ts.len() as u64) as usize;
+                while used_cmd_ranks.contains(&r) {
+                    r = (r + 1) % ts.len();
+                }
+                used_cmd_ranks.insert(r);
+                let k = rng.below(3) as i64;
+                let v = rng.float(-20, 20);
+                ev["op"] = json!("setcmd");
+                ev["t"] = json!(r as i64 + 1);
+                ev["kind"] = json!(k);
+                ev["key"] = json!(f32_key(v));
+                catch(|| {
+                    let _ = set_cmd(terms[i], Datum::new(Time(ts[r]), Command::new(pdk(k), v)));
+                })
+            };
+            if let Err(p) = res {
+                writeln!(f, "{}", json!({"k": "panic", "during": ev["op"], "msg": p})).unwrap();
+                break;
+            }
+            let mut obs = vec![];
+            for t in &terms {
+                let tb = t.borrow();
+                let gs: Output<State, E> = tb.get();
+                let gc: Output<Command, E> = tb.get();
+                let gd: Output<TerminalData, E> = tb.get();
+                let st = match gs { Ok(Some(d)) => json!([{"t": rank_of(d.time), "keys": [f32_key(d.value.position), f32_key(d.value.velocity), f32_key(d.value.acceleration)]}]), _ => json!([]) };
+                let cm = match gc { Ok(Some(d)) => json!([{"t": rank_of(d.time), "kind": kind_of(d.value), "key": f32_key(f32::from(d.value))}]), _ => json!([]) };
+                let da = match gd { Ok(Some(d)) => json!([{"t": rank_of(d.time), "hasState": d.value.state.is_some(), "hasCmd": d.value.command.is_some()}]), _ => json!([]) };
+                obs.push(json!({"st": st, "cmd": cm, "data": da}));
+            }
+            ev["obs"] = json!(obs);
+            writeln!(f, "{}", ev).unwrap();
+        }
+    }
+    f.flush().unwrap();
+}
+
 fn main() {
     silence_panics();
     let args: Vec<String> = std::env::args().collect();
+    if args.len() >= 5 && args[1] == "record" {
+        record(&args[2], args[3].parse().unwrap_or(1), args[4].parse().unwrap_or(20));
+        println!("SUMMARY {}", json!({"recorded": true}));
+        return;
+    }
     if args.len() < 4 || args[1] != "replay" {
         eprintln!("usage: devices replay <behaviours.ndjson> <maps.json> [--only <line>]");
         std::process::exit(2);
